@@ -10,6 +10,58 @@ from harness.core import main  # noqa
 from checks import dagexec_p1, realexec  # noqa
 
 
+def backup_runs(chk):
+    """Real threads executor with use_backups=True: 12 tasks, the first write of one chunk is slow, so a backup twin is launched
+    (real should_launch_backup), wins, the operation ends, and the straggler's identical write arrives late.  The monitor must
+    accept the late byte-identical write and nothing else; task counts must still match (one delivery per input)."""
+    import numpy as np
+    import cubed
+    import cubed.array_api as xp
+    from cubed.runtime.create import create_executor
+    from harness import traced
+    from harness.tlc import validate_traces
+    docs, metas = [], []
+    for focus_chunk in (("c/3/0", 3.0), ("c/0/2", 2.5)) if chk.tier == "quick" else (("c/3/0", 3.0), ("c/0/2", 2.5), ("c/1/1", 4.0), ("c/2/2", 3.0)):
+        with traced.Session() as s0:
+            pass
+        with traced.Session(slow_key=("array-", 0)) as s:      # placeholder, replaced below once the array name is known
+            spec = s.spec()
+            a = np.arange(48 * 6).reshape(48, 6) % 13
+            x = xp.asarray(a, chunks=(4, 2), spec=spec)          # 12 x 3 = 36 tasks per op
+            y = xp.add(xp.negative(x), 1)
+            z = xp.sum(y.rechunk((48, 2)), axis=0)
+            import os
+            os.environ["CUBED_VERIF_SLOW_KEY"] = f"{y.name}/{focus_chunk[0]}|{focus_chunk[1]}"
+            res, exc, plan, evs, cb = traced.run_compute([z], s, executor=create_executor("threads"), use_backups=True,
+                                                         optimize_graph=False, max_workers=8)
+            os.environ.pop("CUBED_VERIF_SLOW_KEY", None)
+        if exc is not None or plan is None:
+            chk.violation(f"threads executor with use_backups=True and a straggling write of {focus_chunk[0]}: compute raised "
+                          f"{type(exc).__name__}: {str(exc)[:120]}", replay=dict(chunk=focus_chunk))
+            continue
+        total = int(cb.plan.num_tasks)
+        doc = traced.to_dagtrace(plan, evs, total=total)
+        launched = sum(1 for e in evs if e["k"] == "slowwrite")
+        dup_sets = len([1 for e in evs if e["k"] == "set" and e["key"].endswith(focus_chunk[0])])
+        ok_vals = np.array_equal(res[0], (-a + 1).sum(axis=0))
+        docs.append(doc)
+        metas.append(dict(chunk=focus_chunk, slow_writes=launched, writes_of_that_chunk=dup_sets, values_ok=bool(ok_vals)))
+    if docs:
+        v, r = validate_traces("DagTrace", docs, constants=dict(Focus="all"), timeout=900)
+        chk.add_tlc("DagTrace[all]/backup-straggler", r)
+        for k, (doc, meta) in enumerate(zip(docs, metas), 1):
+            verdict, l = v.get(k, ("missing", 0))
+            chk.case(key=("backup", str(meta["chunk"])), nontrivial=meta["writes_of_that_chunk"] >= 2)
+            chk.trace_validated()
+            if verdict != "ok":
+                ev = doc["events"][l - 1] if 0 < l <= len(doc["events"]) else None
+                chk.violation(f"threads + use_backups with a straggling write: trace rejected by DagTrace clause {verdict} at event {l}: {ev}",
+                              replay=dict(meta=meta, clause=verdict, event=ev))
+            elif not meta["values_ok"]:
+                chk.violation("threads + use_backups with a straggling write: wrong values", replay=meta)
+    chk.extra["backup_straggler_runs"] = metas
+
+
 def run(chk):
     chk.rule = ("generated array programs (several requested arrays, rechunks, reductions, fused or not) executed on real "
                 "executors x {compute_arrays_in_parallel, batch_size, max_workers, optimize_graph}; store get/set call/return "
@@ -41,6 +93,7 @@ def run(chk):
                           replay=dict(meta=meta, clause=verdict, at=l, event=ev, plan=doc["plan"]))
         elif meta.get("exception") is None and not meta["values_equal_numpy"]:
             chk.drift.append(dict(note="values differ from NumPy although the trace is clean (C01's business)", meta=meta))
+    backup_runs(chk)
     if first_ok is not None:
         realexec.selftest(chk, "C07", first_ok)
     chk.extra["executors"] = {e: sum(1 for m in metas if m["executor"] == e) for e in set(m["executor"] for m in metas)}
